@@ -144,6 +144,7 @@ struct Options {
     bool times = true;          // false at the step the file is loaded into: its block is a placeholder that starts at START
     std::time_t restart_time = 0;            // actions: start_time only matters as a lower bound of later evaluation times
     std::set<std::string> stop_as_shut;      // wells written as SHUT because they were stopped without any flowing connection
+    std::set<std::string> wlist_names;       // candidate well list names (collected from both schedules)
 };
 
 // Which controls of a producer are "observable": the restart file keeps a target only in the slots
@@ -339,14 +340,18 @@ void dump_step(Dump& d, const Opm::Schedule& sched, std::size_t step, const Opm:
     {
         const auto& wlm = ss.wlist_manager();
         d.at("wlist", "");
-        std::vector<std::string> per_well;
-        std::set<std::string> lists;
+        // The lists themselves (list -> wells) are compared.  WListManager has no enumeration of its lists, so the candidate
+        // names come from the per-well name vectors of BOTH schedules (those vectors are bookkeeping that can go stale in the
+        // original: delWListWell does not erase the name, a second DEL clears all names of the well).
+        std::set<std::string> lists = opt.wlist_names;
         for (const auto& wname : sched.wellNames(step)) {
             if (!wlm.hasWList(wname)) continue;
             for (const auto& l : wlm.getWListNames(wname)) lists.insert(l);
         }
-        d.str("lists", join(std::vector<std::string>(lists.begin(), lists.end())));
-        for (const auto& l : lists) { d.at("wlist", l); d.str("wells", join(wlm.getList(l).wells())); }
+        std::vector<std::string> present;
+        for (const auto& l : lists) if (wlm.hasList(l) && !wlm.getList(l).wells().empty()) present.push_back(l);
+        d.str("lists", join(present));
+        for (const auto& l : present) { d.at("wlist", l); d.str("wells", join(sorted(wlm.getList(l).wells()))); }
     }
     // UDQ
     {
@@ -993,6 +998,11 @@ bool run_instance(vh::Rng& rng, const Opm::Deck& deck, std::size_t rs, const std
     for (std::size_t step = sim_step; step < original.size(); ++step) {
         Dump a, b;
         opt.times = step > sim_step;
+        opt.wlist_names.clear();
+        for (const auto* sp : { &original, &restarted }) {
+            const auto& wlm = (*sp)[step].wlist_manager();
+            for (const auto& wname : sp->wellNames(step)) if (wlm.hasWList(wname)) for (const auto& l : wlm.getWListNames(wname)) opt.wlist_names.insert(l);
+        }
         try { dump_step(a, original, step, sim.st, opt); }
         catch (const std::exception& e) { rep.fail("sched.dump-original-throws", "step=" + std::to_string(step) + " " + e.what()); continue; }
         try { dump_step(b, restarted, step, sim.st, opt); }
@@ -1070,7 +1080,7 @@ struct GenModel {
 
 std::string num(double x) { std::ostringstream o; o.precision(10); o << x; return o.str(); }
 
-bool g_with_sicd = false;     // WSEGSICD segments: correspondence mode only (two table-level findings live there; see design.d/C05.md)
+bool g_with_sicd = true;      // WSEGSICD segments in the generated multi-segment wells
 
 struct GWell {
     std::string name, group; int i, j, k0, nc; bool producer, history; char injphase; int born; bool msw; bool shut;
@@ -1360,6 +1370,7 @@ void write_stats(const std::string& path, const vh::PropLog& log, const CaseStat
 int run_prop(uint64_t seed, const std::string& tier, const std::string& outdir)
 {
     vh::PropLog log(outdir + "/prop.txt");
+    g_with_sicd = true;      // WSEGSICD segments in the generated models (two recorded findings live there)
     vh::Rng rng(seed * 104729 + 5);
     Reporter rep; rep.log = &log;
     CaseStats stats;
